@@ -244,4 +244,31 @@ def run_auto(case):
                 os.remove(f)
                 if p != q or p & (p - 1) or not (2 ** 14 <= p <= 2 ** 24):
                     return Outcome(Violation("C12:auto:path", "path_piece_length of a %d-byte file = %r, get_piece_length = %r" % (s, p, q)), True, classes)
+            # the same sizes inside a directory whose names look like shell patterns / are hidden: the choice must follow the total
+            d = os.path.join(scr, "[Grp] Show S01 [1080p] *?")
+            os.makedirs(os.path.join(d, ".extras"))
+            total = 0
+            for i, s in enumerate(sizes[:2] + sizes[-1:]):
+                s = min(s, 2 ** 40)
+                try:
+                    with open(os.path.join(d, ".extras" if i == 1 else "", "part%d.bin" % i), "wb") as fd:
+                        fd.truncate(s)
+                    total += s
+                except OSError:
+                    continue
+            # content reached through a symbolic link to a directory is hashed like any other content, so it counts
+            ext = os.path.join(scr, "elsewhere")
+            os.makedirs(ext)
+            try:
+                with open(os.path.join(ext, "linked.bin"), "wb") as fd:
+                    fd.truncate(min(sizes[-1], 2 ** 40))
+                os.symlink(ext, os.path.join(d, "linked-dir"))
+                total += min(sizes[-1], 2 ** 40)
+            except OSError:
+                pass
+            target.reset()
+            p = utils.path_piece_length(d)
+            q = utils.get_piece_length(total)
+            if p != q:
+                return Outcome(Violation("C12:auto:dir", "path_piece_length of a directory holding %d bytes = %r, get_piece_length(total) = %r" % (total, p, q)), True, classes)
     return Outcome(None, True, classes, subcases=len(sizes))
